@@ -29,6 +29,8 @@ func propC04(r *Report, tier string) {
 	ruleMergeIntroducerRemap(r, in, "K5dep-merge-remap")
 	ruleUpsidedownWriters(r)
 	ruleUpsidedownAtomicPair(r, "K2b-upsidedown-atomic-pair")
+	rulePersistIntroducerCarry(r, in, "K9b-persist-carry")
+	ruleTreapItemsImmutable(r, "K6-treap-items-immutable")
 	r.Floor("K7-root-publishers", 5)
 	r.Floor("K5-single-publication", 9)
 	r.Floor("K6-published-immutable", 20)
